@@ -22,8 +22,18 @@ class BlockedForever(BaseException):
 
 
 class Stream:
-    def __init__(self):
+    def __init__(self, highfd=False):
         self.master, self.slave = pty.openpty()
+        if highfd:
+            # a process with hundreds of descriptors open: the terminal's descriptor number is above 256
+            import fcntl
+            import resource
+            soft, hard = resource.getrlimit(resource.RLIMIT_NOFILE)
+            if soft < 700 and (hard == resource.RLIM_INFINITY or hard >= 700):
+                resource.setrlimit(resource.RLIMIT_NOFILE, (700, hard))
+            hi = fcntl.fcntl(self.slave, fcntl.F_DUPFD, 300 + self.slave)
+            os.close(self.slave)
+            self.slave = hi
         attrs = termios.tcgetattr(self.slave)
         attrs[0] = 0          # iflag: no translation
         attrs[1] = 0          # oflag
@@ -33,7 +43,7 @@ class Stream:
         termios.tcsetattr(self.slave, termios.TCSANOW, attrs)
 
     def fileno(self):
-        return self.slave
+        return int(str(self.slave))   # a new int object on every call, as a real file object's fileno() gives
 
     def close(self):
         for fd in (self.master, self.slave):
@@ -168,14 +178,14 @@ def split_keys(data):
     return out
 
 
-def run_history(hist, paste_threshold=8, final_drain=True, pre=None, nostart=False):
+def run_history(hist, paste_threshold=8, final_drain=True, pre=None, nostart=False, highfd=False):
     """hist: list of actions {"k": arrive|unget|trig|sched|tsappend|tswrite|tscall|sigint|tick|req, ...}.
     Returns the recorded trace {"paste": threshold or -1, "ev": [...]}"""
     import curtsies.input as cinput
     from curtsies import events as cevents
 
     env = Env()
-    stream = Stream()
+    stream = Stream(highfd)
     env.stream_fd = stream.slave
     ids = {"n": 0}
 
@@ -294,6 +304,12 @@ def run_history(hist, paste_threshold=8, final_drain=True, pre=None, nostart=Fal
                     for _ in range(5):
                         pass
                     rec.append({"k": "sigint"})
+                elif k == "reenter":
+                    # the context is left and the same Input object entered again (an application that suspends and
+                    # resumes); triggers made in the first session are still held by their owners
+                    inp.__exit__(None, None, None)
+                    inp.__enter__()
+                    rec.append({"k": "reenter"})
                 elif k == "tick":
                     env.us += TICK
                     rec.append({"k": "tick"})
